@@ -1,13 +1,14 @@
 (* C15 — BlockingPortal: every cross-thread call is run once, answered and joined (proof, partial: boundary).
    Model: boundary/Portal.v (loop side of from_thread.BlockingPortal + the join of its TaskGroup; foreign threads
-   and the callables are environment ops).  `reach f4 fc s`: s is reachable by SOME op list from `init f4 fc`;
-   the code under test is `init true true` (repairs 08c4569 = F4 and 2158065 = F11 present); statements with
-   `f4`/`fc` universally quantified hold for the pinned variants as well.
+   and the callables are environment ops).  `reach f4 fc s`: s is reachable by SOME op list from `init f4 fc fn`
+   for SOME fn; the code under test is `init true true true` (repairs 08c4569 = F4, 2158065 = F11 and 56e7f66 = F39
+   present); statements with `f4`/`fc` universally quantified (and no `fn_fixed s = true` hypothesis) hold for the
+   pinned variants as well.  F40 is a known finding: see section 7.
    This file contains only statements closed by `exact` and their Print Assumptions. *)
 From AV Require Import Base Portal PortalProofs.
 
 (* ---- the invariant behind everything: holds in every reachable state ---- *)
-Theorem C15_reachable_inv : forall f4 fc ops, Inv (final step (init f4 fc) ops).
+Theorem C15_reachable_inv : forall f4 fc fn ops, Inv (final step (init f4 fc fn) ops).
 Proof. exact reachable_inv. Qed.
 Print Assumptions C15_reachable_inv.
 
@@ -89,16 +90,18 @@ Print Assumptions C15_portal_future_cancel_reaches_task.
 
 Theorem C15_portal_cancel_inflight_lands : forall f4 fc s k, reach f4 fc s -> c_inflight (calls s k) = true ->
   (forall o, o <> CancelLand k -> c_inflight (calls (fst (step s o)) k) = true) /\
-  (let s2 := fst (step s (CancelLand k)) in
+  (loop_ended s = false ->
+   let s2 := fst (step s (CancelLand k)) in
    c_scope_cancelled (calls s2 k) = true /\ c_inflight (calls s2 k) = false /\ c_phase (calls s2 k) = c_phase (calls s k) /\
-   (c_phase (calls s2 k) = PRunning -> snd (step s2 (TaskStep k WInterrupt None FReraise)) = RStepped)).
+   (c_phase (calls s2 k) = PRunning -> snd (step s2 (TaskStep k WInterrupt None FReraise)) = RStepped)) /\
+  (loop_ended s = true -> snd (step s (CancelLand k)) = RLost /\ In k (lost_cancels (fst (step s (CancelLand k))))).
 Proof. exact portal_cancel_inflight_lands. Qed.
 Print Assumptions C15_portal_cancel_inflight_lands.
 
 (* pinned variant, tree before 2158065 (finding F11): the cancellation of the future is ignored by a call whose
    wrapper started after stop() *)
 Theorem C15_portal_future_cancel_after_stop_ignored_pinned :
-  let s := final step (init true false)
+  let s := final step (init true false true)
              [ThreadIssue 0 KCoro; ThreadLand 0; Stop false; TaskStep 0 WNormal None FBlock; FutureCancel 0] in
   c_phase (calls s 0) = PRunning /\ c_fut (calls s 0) = CCancelled /\ c_fcancel (calls s 0) = true /\
   c_inflight (calls s 0) = false /\ c_scope_cancelled (calls s 0) = false /\
@@ -158,7 +161,8 @@ Theorem C15_portal_accepts_while_running : forall s k kd, running s = true -> c_
 Proof. exact portal_accepts_while_running. Qed.
 Print Assumptions C15_portal_accepts_while_running.
 
-Theorem C15_portal_land_refused_after_exit : forall s k, host s = HLeft -> c_phase (calls s k) = PIssued ->
+Theorem C15_portal_land_refused_after_exit : forall s k, host s = HLeft -> loop_ended s = false ->
+  c_phase (calls s k) = PIssued ->
   let s' := fst (step s (ThreadLand k)) in
   snd (step s (ThreadLand k)) = RLandRefused /\ c_phase (calls s' k) = PLandRefused /\ members s' = members s /\
   c_execs (calls s' k) = c_execs (calls s k) /\ c_fut (calls s' k) = c_fut (calls s k).
@@ -172,8 +176,9 @@ Proof. exact portal_land_accepted_while_active. Qed.
 Print Assumptions C15_portal_land_accepted_while_active.
 
 Theorem C15_portal_refusal_is_final : forall f4 fc s o k, reach f4 fc s ->
-  c_phase (calls s k) = PRefused \/ c_phase (calls s k) = PLandRefused ->
-  calls (fst (step s o)) k = calls s k /\ c_execs (calls s k) = 0 /\ ~ In k (members s).
+  c_phase (calls s k) = PRefused \/ c_phase (calls s k) = PLandRefused \/ c_phase (calls s k) = PLost ->
+  calls (fst (step s o)) k = calls s k /\ c_execs (calls s k) = 0 /\ ~ In k (members s) /\
+  c_fut (calls s k) = CPending.
 Proof. exact portal_refusal_is_final. Qed.
 Print Assumptions C15_portal_refusal_is_final.
 
@@ -208,8 +213,69 @@ Print Assumptions C15_portal_exit_wakes.
 (* pinned variant, tree before 08c4569 (finding F4): a call landing during the empty-group exit checkpoint is
    orphaned -- the context is left while the call has not even started *)
 Theorem C15_portal_exit_joins_refuted_pinned :
-  let s := final step (init false true) [ThreadIssue 0 KCoro; HostExit false; ThreadLand 0; ResumeHost] in
+  let s := final step (init false true true) [ThreadIssue 0 KCoro; HostExit false; ThreadLand 0; ResumeHost] in
   host s = HLeft /\ c_phase (calls s 0) = PLanded /\ c_execs (calls s 0) = 0 /\ c_fut (calls s 0) = CPending /\
   members s = [0] /\ snd (step s (TaskStep 0 WNormal None FBlock)) = RStepped.
 Proof. exact portal_exit_joins_refuted_pinned. Qed.
 Print Assumptions C15_portal_exit_joins_refuted_pinned.
+
+(* ---- 6. F39 (repair 56e7f66, switch fn_fixed): a cancelled portal future is reported to wait()/as_completed() ---- *)
+Theorem C15_portal_cancelled_future_notified : forall f4 fc s k, reach f4 fc s -> fn_fixed s = true ->
+  donep (c_phase (calls s k)) = true -> c_fut (calls s k) = CCancelled ->
+  c_notified (calls s k) = true /\ fut_state (calls s k) = SCancelledNotified /\ reported_done (calls s k) = true.
+Proof. exact portal_cancelled_future_notified. Qed.
+Print Assumptions C15_portal_cancelled_future_notified.
+
+Theorem C15_portal_done_future_reported : forall f4 fc s k, reach f4 fc s -> fn_fixed s = true ->
+  donep (c_phase (calls s k)) = true -> reported_done (calls s k) = true.
+Proof. exact portal_done_future_reported. Qed.
+Print Assumptions C15_portal_done_future_reported.
+
+Theorem C15_portal_notification_sound : forall f4 fc s k, reach f4 fc s ->
+  (c_notified (calls s k) = true -> c_fut (calls s k) = CCancelled /\ donep (c_phase (calls s k)) = true) /\
+  c_invalid (calls s k) = false /\ fut_state (calls s k) <> SRunning.
+Proof. exact portal_notification_sound. Qed.
+Print Assumptions C15_portal_notification_sound.
+
+(* pinned variant, tree before 56e7f66: cancelled by the caller => reaped but never notified (coroutine call
+   interrupted through its own scope; sync callable cancelled before it ran) *)
+Theorem C15_portal_cancelled_future_notified_refuted_pinned :
+  (let s := final step (init true true false)
+              [ThreadIssue 0 KCoro; ThreadLand 0; TaskStep 0 WNormal None FBlock; FutureCancel 0; CancelLand 0;
+               TaskStep 0 WInterrupt None FReraise; TaskReap 0] in
+   c_phase (calls s 0) = PReaped /\ c_fut (calls s 0) = CCancelled /\ c_fcancel (calls s 0) = true /\
+   c_notified (calls s 0) = false /\ reported_done (calls s 0) = false) /\
+  (let s := final step (init true true false)
+              [ThreadIssue 0 KSync; ThreadLand 0; FutureCancel 0; TaskStep 0 WNormal None (FReturn 9%Z); TaskReap 0] in
+   c_phase (calls s 0) = PReaped /\ c_fut (calls s 0) = CCancelled /\ c_execs (calls s 0) = 1 /\
+   c_notified (calls s 0) = false /\ reported_done (calls s 0) = false).
+Proof. exact portal_cancelled_future_notified_refuted_pinned. Qed.
+Print Assumptions C15_portal_cancelled_future_notified_refuted_pinned.
+
+(* ---- 7. F40 (known finding, predicate landed_after_loop_end): the strong clause, its proof under the
+        hypothesis that no hand-over comes after the loop's last iteration, and the refutation without it ---- *)
+Definition C15_no_call_left_hanging (ops : list op) : Prop :=
+  let s := final step (init true true true) ops in
+  lost_cancels s = [] /\
+  forall k,
+    match c_phase (calls s k) with
+    | PLost => False
+    | PLanded | PRunning | PFinished | PReaped =>
+        host s = HLeft ->
+        c_phase (calls s k) = PReaped /\ c_execs (calls s k) = 1 /\ c_fut (calls s k) <> CPending /\
+        reported_done (calls s k) = true
+    | _ => True
+    end.
+
+Theorem C15_portal_no_call_left_hanging : forall ops,
+  no_land_after_loop_end ops = true -> C15_no_call_left_hanging ops.
+Proof. exact portal_no_call_left_hanging. Qed.
+Print Assumptions C15_portal_no_call_left_hanging.
+
+Theorem C15_portal_landed_after_loop_end_refuted :
+  exists ops, landed_after_loop_end ops = true /\ ~ C15_no_call_left_hanging ops /\
+    let s := final step (init true true true) ops in
+    c_phase (calls s 0) = PLost /\ c_execs (calls s 0) = 0 /\ c_fut (calls s 0) = CPending /\
+    forall ops', calls (final step s ops') 0 = calls s 0.
+Proof. exact portal_landed_after_loop_end_refuted. Qed.
+Print Assumptions C15_portal_landed_after_loop_end_refuted.
